@@ -1,24 +1,25 @@
 /* Proof unit for C13/C04: the URI parser of the real source/uri.c under contract.
  * The state-function contracts need the private struct uri_parser, so contracts/uri_parser.h comes AFTER the source. */
 #define VERIF_TRACK_ERRORS
+#define VERIF_URI_MEMCHR_MODEL
 #include "contracts/uri.h"
 #include "source/byte_buf.c"
 #include "source/uri.c"
 #include "contracts/uri_parser.h"
 
-#define GHOSTS_P() do { GHOST_RESET(); g_m = nondet_size_t(); g_pu_ok = nondet_bool(); g_pu_val = nondet_u64(); g_pu_calls = 0; } while (0)
+#define GHOSTS_P() do { GHOST_RESET(); g_mc_n = 0; g_pu.ok = nondet_bool(); g_pu.val = nondet_u64(); g_pu.calls = 0; } while (0)
 
 void h_parse_scheme(void) {
     struct uri_parser *p; struct aws_byte_cursor *s;
     GHOSTS_P();
     s_parse_scheme(p, s);
-    if (g_raise_count == 1) CANARY("malformed scheme"); else if (FIRST(':') == NONE) CANARY("no colon"); else CANARY("colon");
+    if (g_raise_count == 1) CANARY("malformed scheme"); else if (MC(0) == NONE) CANARY("no colon"); else CANARY("colon");
 }
 void h_parse_path(void) {
     struct uri_parser *p; struct aws_byte_cursor *s;
     GHOSTS_P();
     s_parse_path(p, s);
-    if (FIRST('?') == NONE) CANARY("path only"); else CANARY("path then query");
+    if (MC(0) == NONE) CANARY("path only"); else CANARY("path then query");
 }
 void h_parse_query(void) {
     struct uri_parser *p; struct aws_byte_cursor *s;
@@ -30,7 +31,120 @@ void h_parse_authority(void) {
     struct uri_parser *p; struct aws_byte_cursor *s;
     GHOSTS_P();
     s_parse_authority(p, s);
-    if (g_raise_count > 0) { if (g_pu_calls == 1) CANARY("bad port"); else CANARY("malformed"); }
-    else if (g_pu_calls == 1) CANARY("port parsed");
+    if (g_raise_count > 0) { if (g_pu.calls == 1) CANARY("bad port"); else CANARY("malformed"); }
+    else if (g_pu.calls == 1) CANARY("port parsed");
     else CANARY("no port text");
+}
+
+/* ------------------------------------------------------------------ exact specification of s_parse_authority.
+ * Harness-evaluated (locals), equivalent to a contract: arbitrary text of arbitrary length, arbitrary prior contents of the
+ * aws_uri; the searches are answered by the memchr model (any first-occurrence results), the port value by the ghost
+ * outcome g_pu.  Every component is checked against the search results it must follow from, in both directions. */
+#define VIEW_EQ(v, off, n) ((v).ptr == text + (off) && (v).len == (n))
+#define VIEW_KEPT(f) (u.f.ptr == u0.f.ptr && u.f.len == u0.f.len)
+#define SEARCH_IS(k, ch, off, n) (g_mc[k].c == (ch) && g_mc[k].s == text + (off) && g_mc[k].len == (n))
+#define CHECK(cond, msg) __CPROVER_assert(cond, msg)
+void h_parse_authority_exact(void) {
+    GHOSTS_P();
+    size_t n = nondet_size_t();
+    __CPROVER_assume(n < VERIF_HUGE);
+    uint8_t *text = n ? malloc(n) : NULL;
+    __CPROVER_assume(n == 0 || text != NULL);
+    struct aws_uri u;
+    struct aws_uri u0 = u;
+    struct uri_parser p;
+    p.uri = &u;
+    p.state = ON_AUTHORITY;
+    struct aws_byte_cursor str = {.len = n, .ptr = text};
+    int raise0 = g_raise_count;
+
+    s_parse_authority(&p, &str);
+
+    int raised = g_raise_count - raise0;
+    bool err = p.state == ERROR;
+    /* frame: nothing but the authority-related fields */
+    CHECK(p.uri == &u && u.self_size == u0.self_size && u.allocator == u0.allocator && u.uri_str.buffer == u0.uri_str.buffer &&
+          u.uri_str.len == u0.uri_str.len && u.uri_str.capacity == u0.uri_str.capacity && u.uri_str.allocator == u0.uri_str.allocator &&
+          VIEW_KEPT(scheme) && VIEW_KEPT(query_string), "frame: scheme, query string, uri_str and header fields untouched");
+    CHECK(err ? (raised >= 1 && g_last_error == AWS_ERROR_MALFORMED_INPUT_STRING) : raised == 0, "ERROR state <=> MALFORMED_INPUT_STRING raised");
+    CHECK(g_mc_n >= 2 && SEARCH_IS(0, '/', 0, n) && SEARCH_IS(1, '?', 0, n), "first '/' and first '?' searched over the whole remaining text");
+    size_t SL = g_mc[0].res, QM = g_mc[1].res;
+    if (n == 0) {
+        CHECK(err && raised == 1 && g_mc_n == 2, "empty text is MALFORMED");
+        CHECK(str.ptr == text && str.len == 0 && VIEW_KEPT(authority) && VIEW_KEPT(userinfo) && VIEW_KEPT(user) && VIEW_KEPT(password) &&
+              VIEW_KEPT(host_name) && VIEW_KEPT(path) && VIEW_KEPT(path_and_query) && u.port == u0.port, "empty text: nothing stored");
+        CANARY("empty");
+        return;
+    }
+    size_t A = u.authority.len;
+    CHECK(u.authority.ptr == text && A == (SL != NONE ? SL : (QM != NONE ? QM : n)), "authority = text up to the first '/', else up to the first '?', else all of it");
+    CHECK(QM == NONE || A <= QM, "RFC 3986 3.2: a '?' before the first '/' terminates the authority (query without path)");
+    CHECK(str.ptr == text + A && str.len == n - A, "cursor advanced by exactly the authority");
+    if (A == n) {
+        CHECK(u.path.ptr == NULL && u.path.len == 0 && u.path_and_query.ptr == NULL && u.path_and_query.len == 0, "no path: path views reset to NULL/0");
+    } else {
+        CHECK(VIEW_KEPT(path) && VIEW_KEPT(path_and_query), "path views left to the later states");
+    }
+    CHECK(err || p.state == (A == n ? FINISHED : (SL != NONE ? ON_PATH : ON_QUERY_STRING)), "next state follows the delimiter found");
+    if (A == 0) {
+        CHECK(g_mc_n == 2 && !err && VIEW_KEPT(userinfo) && VIEW_KEPT(user) && VIEW_KEPT(password) && VIEW_KEPT(host_name) && u.port == u0.port,
+              "empty authority: user-info, host and port untouched, no error");
+        CANARY("empty authority");
+        return;
+    }
+    /* user-info */
+    CHECK(g_mc_n >= 3 && SEARCH_IS(2, '@', 0, A), "first '@' searched over the authority");
+    size_t AT = g_mc[2].res;
+    size_t K = 3;
+    if (AT == NONE) {
+        CHECK(VIEW_KEPT(userinfo) && VIEW_KEPT(user) && VIEW_KEPT(password), "no '@': user-info views untouched");
+    } else {
+        CHECK(g_mc_n >= 4 && SEARCH_IS(3, ':', 0, AT), "first ':' searched over the user-info");
+        size_t UC = g_mc[3].res;
+        K = 4;
+        CHECK(VIEW_EQ(u.userinfo, 0, AT), "user-info = authority up to the first '@'");
+        CHECK(VIEW_EQ(u.user, 0, UC == NONE ? AT : UC), "user = user-info up to its first ':'");
+        CHECK(UC == NONE ? VIEW_KEPT(password) : VIEW_EQ(u.password, UC + 1, AT - UC - 1), "password = user-info after its first ':'");
+    }
+    size_t R0 = AT == NONE ? 0 : AT + 1; /* host[:port] = text[R0, A) */
+    size_t RL = A - R0;
+    bool v6 = RL > 0 && text[R0] == '[';
+    size_t PS = R0, BR = NONE;
+    if (v6) {
+        CHECK(g_mc_n >= K + 1 && SEARCH_IS(K, ']', R0, RL), "bracketed host: first ']' searched over host[:port]");
+        BR = g_mc[K].res;
+        if (BR == NONE) {
+            CHECK(g_mc_n == K + 1 && err && raised == 1 && VIEW_KEPT(host_name) && u.port == u0.port && g_pu.calls == 0, "'[' without ']' is MALFORMED; host and port untouched");
+            CANARY("unclosed bracket");
+            return;
+        }
+        PS = R0 + BR;
+        K = K + 1;
+    }
+    CHECK(g_mc_n == K + 1 && SEARCH_IS(K, ':', PS, A - PS), "port delimiter: first ':' of host[:port], from the closing bracket on for a bracketed host");
+    size_t PC = g_mc[K].res;
+    if (PC == NONE) {
+        CHECK(u.port == 0 && !err && g_pu.calls == 0, "no ':' => port 0, no error");
+        if (!v6) CHECK(VIEW_EQ(u.host_name, R0, RL), "host = all of host[:port]");
+        else if (BR == RL - 1) CHECK(VIEW_EQ(u.host_name, R0 + 1, RL - 2), "bracketed host = text between the brackets");
+        if (v6) CANARY("bracketed host without port"); else CANARY("host without port");
+        return;
+    }
+    size_t PCA = PS + PC; /* index of the port delimiter */
+    if (!v6) CHECK(VIEW_EQ(u.host_name, R0, PCA - R0), "host = host[:port] up to the first ':'");
+    else if (PC == 1) CHECK(VIEW_EQ(u.host_name, R0 + 1, BR - 1), "bracketed host = text between the brackets");
+    size_t PL = A - PCA - 1;
+    if (PL == 0) {
+        CHECK(u.port == 0 && !err && g_pu.calls == 0, "empty port text => port 0, no error, number parser not called");
+        CANARY("empty port");
+        return;
+    }
+    CHECK(g_pu.calls == 1 && g_pu.ptr == text + PCA + 1 && g_pu.len == PL, "number parser called once on exactly the text after the port delimiter");
+    if (g_pu.ok && g_pu.val <= UINT32_MAX) {
+        CHECK(u.port == (uint32_t)g_pu.val && !err, "port = parsed value");
+        if (v6) CANARY("bracketed host with port"); else CANARY("host with port");
+    } else {
+        CHECK(err && u.port == u0.port && raised == (g_pu.ok ? 1 : 2), "unparsable port or port > 2^32-1 is MALFORMED; port untouched");
+        if (g_pu.ok) CANARY("port too large"); else CANARY("port not a number");
+    }
 }
